@@ -281,6 +281,47 @@ def partial_notrace_cases(rng):
     return out
 
 
+def checkpoint_misc_cases(rng):
+    out = []
+
+    def rec(name, ok, detail=None):
+        out.append({"checkpoint": True, "ok": bool(ok), "case": name, "detail": detail, "site": {"oracle": "checkpoint", "configuration": name}})
+    x = float(rng.choice([1, 2, 3]))
+    try:
+        # positional arguments that are not differentiable values (an int count, a bool, None, a string)
+        def poly(z, n, flag, tag, extra=None):
+            r = z
+            for _ in range(n):
+                r = r * z
+            return r * (2.0 if flag else 1.0) + (0.0 if extra is None else extra) + (1.0 if tag == "t" else 0.0)
+        cpoly = checkpoint(poly)
+        for args in ((3, True, "t", None), (1, False, "u", 2.0), (0, True, "t", None)):
+            want = [float(poly(x, *args)), float(grad(poly)(x, *args)), float(grad(grad(poly))(x, *args))]
+            got = [float(cpoly(x, *args)), float(grad(cpoly)(x, *args)), float(grad(grad(cpoly))(x, *args))]
+            rec("non-differentiable positional arguments %r" % (args,), got == want, [got, want])
+    except Exception as ex:
+        rec("non-differentiable positional arguments", False, repr(ex))
+    try:
+        # second derivatives where the first-order cotangent reaching the checkpointed function is exactly zero
+        f = lambda z: z * z * z + 2.0 * z  # noqa: E731
+        cf = checkpoint(f)
+        fit = lambda w, fn: 0.5 * (fn(w) - f(x)) ** 2      # noqa: E731   zero residual at w = x
+        want = float(grad(grad(lambda w: fit(w, f)))(x))
+        got = float(grad(grad(lambda w: fit(w, cf)))(x))
+        rec("second derivative at a zero-residual point", got == want, [got, want])
+        from autograd import hessian as _h
+        xv = onp.array([x, x + 1.0])
+        fv = lambda z: anp.sum(z * z * z)  # noqa: E731
+        cfv = checkpoint(fv)
+        fitv = lambda w, fn: 0.5 * (fn(w) - fv(xv)) ** 2   # noqa: E731
+        rec("hessian at a zero-residual point", onp.all(_h(lambda w: fitv(w, cfv))(xv) == _h(lambda w: fitv(w, fv))(xv)))
+        rec("second derivative with the first-order cotangent multiplied by a traced zero",
+            float(grad(lambda w: grad(lambda u: cf(u) * (w - x))(w))(x)) == float(grad(lambda w: grad(lambda u: f(u) * (w - x))(w))(x)))
+    except Exception as ex:
+        rec("second derivative at a zero-residual point", False, repr(ex))
+    return out
+
+
 def checkpoint_kw_case(rng):
     """a traced value handed to a checkpointed function BY KEYWORD: same value and derivative as the plain function, or a
     loud refusal"""
@@ -354,7 +395,7 @@ def main():
         out["jvp"].append(jvp_case(rng))
     for i in range(cfg["n_oracle"]):
         out["oracle"].append(two_level_case(rng))
-        for c in (checkpoint_case(rng), checkpoint_case_nary(rng)) + ((checkpoint_kw_case(rng),) + tuple(partial_notrace_cases(rng)) if i == 0 else ()):
+        for c in (checkpoint_case(rng), checkpoint_case_nary(rng)) + ((checkpoint_kw_case(rng),) + tuple(partial_notrace_cases(rng)) + tuple(checkpoint_misc_cases(rng)) if i == 0 else ()):
             if c:
                 out["oracle"].append(c)
     print(json.dumps(out))
